@@ -46,7 +46,7 @@ func init() {
 			return []runner.Phase{
 				{Name: "attempt-accounting", Variant: "race", Cases: n / 100, Run: c13accounting, CaseTimeout: 120 * time.Second, Required: []string{"attempts_recorded_concurrently"}},
 				{Name: "scenarios", Variant: "race", Cases: n, Run: c13case, CaseTimeout: 120 * time.Second,
-					Required: []string{"retry_same_host", "retry_next_host", "rethrow_or_ignore", "non_idempotent", "speculative", "ctx_cancelled", "budget_exhausted", "batches", "host_down_while_in_flight", "batch_reused_after_entries_changed", "speculative_batch_executions_seen", "sessions_with_cluster_retry_policy", "ctx_cancelled_between_attempts", "executions_without_observer", "downgrading_policy_final_errors"}},
+					Required: []string{"retry_same_host", "retry_next_host", "rethrow_or_ignore", "non_idempotent", "speculative", "ctx_cancelled", "budget_exhausted", "batches", "host_down_while_in_flight", "batch_reused_after_entries_changed", "speculative_batch_executions_seen", "sessions_with_cluster_retry_policy", "ctx_cancelled_between_attempts", "executions_without_observer", "downgrading_policy_final_errors", "overlapping_executions_of_WithContext_copies"}},
 			}
 		},
 	})
@@ -296,6 +296,16 @@ func (ns *c13nodeState) handler(idx int) fakenode.Handler {
 		if doCancel && cancel != nil {
 			cancel()
 			time.Sleep(2 * time.Millisecond) // let the caller notice before the (failing) answer arrives
+		}
+		if kind == "slow-overloaded" {
+			// a failing answer that takes a while (other executions of the same statement start meanwhile)
+			time.AfterFunc(6*time.Millisecond, func() {
+				ns.mu.Lock()
+				a.doneT = time.Now()
+				ns.mu.Unlock()
+				sc.ReplyError(req, &cqlref.ErrSpec{Code: 0x1001, Message: "overloaded"})
+			})
+			return
 		}
 		if strings.HasPrefix(kind, "slow-ok") {
 			// a successful answer that takes a while (speculative executions overlap it)
@@ -749,6 +759,58 @@ func c13case(c *runner.Ctx, i int) {
 		}
 	}
 	// a Batch object that is executed, changed through its exported Entries field, and executed again: whether
+	// copies of one Query / Batch made with WithContext (they share the original's attempt accounting), executed at
+	// overlapping times, each with its own consistency level so that the nodes can tell them apart: none of them
+	// reaches servers more often than the retry policy allows one execution
+	if !drops && i%3 == 1 {
+		tok := fmt.Sprintf("wc%d", i)
+		var script []string
+		for k := 0; k < 40; k++ {
+			script = append(script, "slow-overloaded")
+		}
+		ns.mu.Lock()
+		ns.script[tok] = script
+		ns.mu.Unlock()
+		retries := 1 + r.Intn(2)
+		levels := []gocql.Consistency{gocql.One, gocql.Two, gocql.Three, gocql.Quorum, gocql.LocalQuorum}[:3+r.Intn(3)]
+		asBatch := version >= 2 && r.Intn(2) == 0
+		baseQ := sess.Query("RETRY " + tok).Idempotent(true).RetryPolicy(&gocql.SimpleRetryPolicy{NumRetries: retries})
+		baseB := sess.NewBatch(gocql.UnloggedBatch).RetryPolicy(&gocql.SimpleRetryPolicy{NumRetries: retries})
+		baseB.Entries = append(baseB.Entries, gocql.BatchEntry{Stmt: "RETRY " + tok, Idempotent: true})
+		var wg sync.WaitGroup
+		for k, cn := range levels {
+			wg.Add(1)
+			go func(k int, cn gocql.Consistency) {
+				defer wg.Done()
+				time.Sleep(time.Duration(k*3) * time.Millisecond)
+				if asBatch {
+					b := baseB.WithContext(context.Background())
+					b.Cons = cn
+					c.Guard("ExecuteBatch", func() { sess.ExecuteBatch(b) })
+				} else {
+					q := baseQ.WithContext(context.Background())
+					q.Consistency(cn)
+					c.Guard("Query.Exec", func() { q.Exec() })
+				}
+			}(k, cn)
+		}
+		wg.Wait()
+		time.Sleep(15 * time.Millisecond)
+		per := map[int]int{}
+		ns.mu.Lock()
+		for _, a := range ns.arrivals[tok] {
+			per[a.cons]++
+		}
+		ns.mu.Unlock()
+		c.Add("overlapping_executions_of_WithContext_copies", int64(len(levels)))
+		for _, cn := range levels {
+			if per[int(cn)] > 1+retries {
+				c.Violation("C13:attempt-budget-exceeded:with-context-copies", fmt.Sprintf("the execution at consistency %v reached servers %d times, its retry policy allows %d retries (copies of one %s made with WithContext, executed at overlapping times)", cn, per[int(cn)], retries, map[bool]string{true: "Batch", false: "Query"}[asBatch]),
+					map[string]interface{}{"arrivals_per_consistency": fmt.Sprint(per), "retries_allowed": retries})
+				break
+			}
+		}
+	}
 	// it may be executed speculatively is a property of the entries it holds at that time
 	if nn >= 2 && !drops {
 		ta, tb := fmt.Sprintf("rb%d_a", i), fmt.Sprintf("rb%d_b", i)
